@@ -520,11 +520,15 @@ theorem report_valid_json (s : StateModel) (j : Json) (_h : printJson s = .ok j)
                      addresses, `u32` ids/lines/counts, `u8` sizes …) and the `BTreeSet`s of
                      unloaded-module offsets are non-empty and ascending; these are facts of the
                      Rust types / of the processor, not restrictions on the dump;
-  * `Documented s` — the state avoids the THREE places where the code leaves the document
-                     (known findings, notes/C15.md): unknown OS id, handle values ≥ 2^32,
-                     a `soft_errors` value that is not an array of objects. Each clause is
-                     necessary: `os_unknown_not_hexstring` below, and engine `json` exhibits
-                     all three on the real code (KNOWN-FINDING lines of the check). -/
+  * `Documented s` — (a) the OS id is a known one: for `Os::Unknown` the code prints `0x0x…`,
+                     which is not the documented `<hexstring>` (KNOWN FINDING, see
+                     `os_unknown_not_hexstring` and notes/C15.md); (b) `soft_errors`, when
+                     present, is an array of objects (or nulls): `print_json` passes the public
+                     field through unchanged, and it is the PROCESSOR that establishes this
+                     (processor.rs keeps the parsed stream only if it is an array of objects,
+                     /repo 7c77347; engine `json` checks that on processed synthetic dumps).
+                     `handles[].handle` is a `<u64>` in the document since /repo b67afac and is
+                     covered by `Typed`. -/
 
 structure Typed (s : StateModel) : Prop where
   pid : ∀ n, s.pid = some n → n ≤ U32MAX
@@ -538,10 +542,10 @@ structure Typed (s : StateModel) : Prop where
   mac : ∀ rs, s.macCrashInfo = some rs → rs.length ≤ U32MAX ∧ ∀ r ∈ rs,
     (∀ n, r.thread = some n → n ≤ U64MAX) ∧ (∀ n, r.dialogMode = some n → n ≤ U64MAX) ∧
     (∀ n, r.abortCause = some n → n ≤ U64MAX)
+  handles : ∀ hs, s.handles = some hs → ∀ h ∈ hs, h.handle ≤ U64MAX
 
 structure Documented (s : StateModel) : Prop where
   os : ∀ v, s.sys.os ≠ .unknown v
-  handles : ∀ hs, s.handles = some hs → ∀ h ∈ hs, h.handle ≤ U32MAX
   soft : ∀ j, s.softErrors = some j → ∃ xs, j = .arr xs ∧ ∀ x ∈ xs, x = .null ∨ ∃ kvs, x = .obj kvs
 
 theorem widthOf_report (s : StateModel) (j : Json)
@@ -606,7 +610,7 @@ theorem check_base (s : StateModel) (ms ts us : List Json) (extra : List (String
     intro q; cases s.macBootArgs with
     | none => exact check_null _ _ _
     | some o => exact check_optStr _ o q
-  have hhandles : ∀ q, check s.sys.cpu.pw.digits (.arr (.obj [("handle", .u32), ("type_name", .str),
+  have hhandles : ∀ q, check s.sys.cpu.pw.digits (.arr (.obj [("handle", .u64), ("type_name", .str),
       ("object_name", .str)])) (optJ (fun hs : List HandleM => .arr (hs.map handleJson)) s.handles) q = none := by
     intro q
     cases hh : s.handles with
@@ -615,7 +619,7 @@ theorem check_base (s : StateModel) (ms ts us : List Json) (extra : List (String
       apply check_arr
       intro x hx q'
       obtain ⟨h, hm, rfl⟩ := List.mem_map.mp hx
-      exact check_handleJson _ h (doc.handles hs hh h hm) q'
+      exact check_handleJson _ h (ty.handles hs hh h hm) q'
   have hsys := fun q => check_systemInfo s.sys.cpu.pw.digits s.sys doc.os ty.cpuCount ty.microcode q
   have hci := fun q => check_crashInfo s.sys.cpu.pw s q ty.exc hreq
   have hmods := fun q => check_arr _ _ ms q hms
@@ -771,11 +775,11 @@ example : Typed exState := by
     simp [exState] at he; subst he
     constructor <;> simp [U64MAX]
   · simp [exState]
+  · simp [exState, U64MAX]
 
 example : Documented exState := by
   constructor
   · simp [exState]
-  · simp [exState, U32MAX]
   · intro j hj
     simp [exState] at hj; subst hj
     exact ⟨_, rfl, by simp⟩
